@@ -217,10 +217,10 @@ type ymlTok struct {
 	Column int    `yaml:"column"`
 }
 type ymlSpec struct {
-	Name   string   `yaml:"name"`
-	Input  string   `yaml:"input"`
+	Name   string                    `yaml:"name"`
+	Input  string                    `yaml:"input"`
 	Error  *struct{ Message string } `yaml:"error"`
-	Tokens []ymlTok `yaml:"tokens"`
+	Tokens []ymlTok                  `yaml:"tokens"`
 }
 
 func repoRoot() string {
